@@ -39,7 +39,18 @@ type bndEngine struct {
 	// allocBound gives, for an allocation-size obligation in ctx, the linear upper bound the
 	// size must respect (ok=false: no bound can be stated here → undecided).
 	allocBound func(c *fnCtx, at ssa.Instruction) (Lin, string, bool)
+
+	// checkWrap adds no-wrap obligations for signed 64-bit + − × and, to make them provable,
+	// the assumption that no slice or string is longer than 2^40 bytes plus magnitude
+	// candidates (|x| ≤ 2^41) for parameters, results, loop values and tracked fields.
+	checkWrap bool
 }
+
+const (
+	wrapBound = int64(1) << 60
+	lenCap    = int64(1) << 40
+	magBound  = int64(1) << 41
+)
 
 type callSite struct {
 	ctx  *fnCtx
@@ -67,7 +78,7 @@ type cand struct {
 	desc  string
 	L     Lin
 	alive bool
-	ctx   *fnCtx         // candBlock
+	ctx   *fnCtx          // candBlock
 	block *ssa.BasicBlock // candBlock
 	invOf *cand           // candBlock instantiating a struct invariant at a join state
 	died  string
@@ -551,6 +562,9 @@ func (c *fnCtx) fieldLen(fi int, ver string) (Lin, bool) {
 	name := "len(" + c.fieldAtomName(fi, ver) + ")"
 	a := linAtom(name)
 	c.addDef(leq(linConst(0), a, "len ≥ 0"))
+	if c.e.checkWrap {
+		c.addDef(leq(a, linConst(lenCap), "assumption: no buffer longer than 2^40"))
+	}
 	if val, ok := c.storeVers[fmt.Sprintf("%d@%s", fi, ver)]; ok {
 		k := "eq:" + name
 		if !c.defSeen[k] {
